@@ -1044,7 +1044,7 @@ class Interp:
                     out.extend(sp[1])
                 else:
                     # star of an abstract sequence inside a display: the display becomes abstract
-                    raise _AbstractDisplay(v)
+                    raise _AbstractDisplay(sp[1])
             else:
                 out.append(self.eval(e, env))
         return out
@@ -1344,7 +1344,7 @@ class Interp:
                 if sp and sp[0] == "concrete":
                     args.extend(sp[1])
                 else:
-                    args.append(("*", v))
+                    args.append(("*", sp[1] if sp else v))  # what the spreading saw: a one-shot iterator is consumed by it, not again by the callee
             else:
                 args.append(self.eval(a, env))
         kwargs = {}
